@@ -19,13 +19,14 @@ NEXTLF_NET = z3.Function("NextLF_net", z3.IntSort(), z3.IntSort())
 NET_END = z3.Int("net_end")  # the peer's stream is finite: everything it ever sends is net[0:net_end] (termination variants, C04)
 
 
-def new_socket(st, name="net"):
+def new_socket(st, name="net", faultfree=False):
     o = HObject("ext.Socket")
     import socket as pysocket
     o.pycls = pysocket.socket
     rpos = z3.Int(f"{name}_rpos0")
     st.assume(rpos >= 0, rpos <= NET_END)
-    o.fields.update({"arr": ByteArr.get(name), "rpos": rpos, "nrecv": 0, "last": "none"})
+    # faultfree: the peer sends all of net[0:net_end] and then closes; no timeout, no OS error (C02 over socket-backed streams)
+    o.fields.update({"arr": ByteArr.get(name), "rpos": rpos, "nrecv": 0, "last": "none", "faultfree": faultfree})
     return st.alloc(o)
 
 
@@ -43,7 +44,7 @@ class SockRecv(Contract):
         # end of stream and stalls (C11/C12 completeness)
         eng.oblige("ext.Socket.recv.pre.bufsize_positive", st, n >= 1, kind="pre", site=site, observe={"bufsize": n})
         outs = []
-        for kind in ("data", "closed", "OSError", "TimeoutError"):
+        for kind in (("data", "closed") if f.get("faultfree") else ("data", "closed", "OSError", "TimeoutError")):
             s = st.fork()
             fs = s.obj(selfv).fields
             fs["nrecv"] = f["nrecv"] + 1
@@ -58,6 +59,10 @@ class SockRecv(Contract):
                 s.writes.add((selfv.oid, "rpos"))
                 outs.append((s, SBytes([View(arr, rpos, fs["rpos"])])))
             elif kind == "closed":
+                if f.get("faultfree"):
+                    s.assume(rpos == NET_END)  # a fault-free peer closes only after having sent everything
+                    if not feasible(s.pc):
+                        continue
                 outs.append((s, b""))
             else:
                 outs.append((s, RaiseExc(OSError if kind == "OSError" else TimeoutError, kind)))
@@ -171,14 +176,19 @@ class WRead(Contract):
         s2.obj(sock).fields["rpos"] = r1
         s2.obj(sock).fields["last"] = "failed"
         s2.obj(selfv).fields["_buffer"] = SBytes([View(arr, d0, r1)], mutable=True)
+        if sf.get("faultfree"):
+            s2.assume(r1 == NET_END)  # read.post.faultfree_short_only_when_the_peer_stream_is_exhausted
         if feasible(s2.pc):
             outs.append((s2, b""))
         return outs
 
+    def instances(self, tier):
+        return [None, "faultfree"]
+
     def verify(self, eng, inst):
         fi = extract.func(self.qualname)
         st = State()
-        sock = new_socket(st)
+        sock = new_socket(st, faultfree=(inst == "faultfree"))
         selfv = new_wrapper(st, sock)
         sf = st.obj(sock).fields
         arr, r0 = sf["arr"], sf["rpos"]
@@ -216,6 +226,11 @@ class WRead(Contract):
             eng.oblige(f"{self.qualname}.post.short_only_after_failed_receive", s,
                        z3.Implies(n < num, z3.BoolVal(last in ("closed", "OSError", "TimeoutError"))), observe=obs, note=last)
             eng.oblige(f"{self.qualname}.post.result_is_immutable_bytes", s, z3.BoolVal(not (isinstance(out.v, SBytes) and out.v.mutable)))
+            if inst == "faultfree":
+                # over a peer that sends everything and then closes, read(num) is min-or-nothing: all num bytes whenever that many
+                # remain, b"" only when fewer remain (and then everything the peer sent has been received)
+                eng.oblige(f"{self.qualname}.post.faultfree_full_read_whenever_enough_remains", s, z3.Implies(NET_END - d0 >= num, n == num), observe=obs)
+                eng.oblige(f"{self.qualname}.post.faultfree_short_only_when_the_peer_stream_is_exhausted", s, z3.Implies(n < num, r1 == NET_END), observe=obs)
         return canary
 
 
@@ -245,6 +260,10 @@ class WReadline(Contract):
             else:
                 s.assume(d1 <= nl)
                 s.obj(sock).fields["last"] = "failed"
+                if sf.get("faultfree"):
+                    s.assume(d1 == NET_END, r1 == NET_END)  # readline.post.faultfree_line_through_first_LF_else_the_rest
+            if sf.get("faultfree") and kind == "through_LF":
+                s.assume(nl < NET_END)
             if not feasible(s.pc):
                 continue
             s.obj(sock).fields["rpos"] = r1
@@ -253,10 +272,13 @@ class WReadline(Contract):
             outs.append((s, norm(SBytes([View(arr, d0, d1)]))))
         return outs
 
+    def instances(self, tier):
+        return [None, "faultfree"]
+
     def verify(self, eng, inst):
         fi = extract.func(self.qualname)
         st = State()
-        sock = new_socket(st)
+        sock = new_socket(st, faultfree=(inst == "faultfree"))
         selfv = new_wrapper(st, sock)
         sf = st.obj(sock).fields
         arr = sf["arr"]
@@ -306,6 +328,9 @@ class WReadline(Contract):
             r1 = s.obj(sock).fields["rpos"]
             eng.oblige(f"{self.qualname}.post.invariant_buffer_is_rest", s,
                        z3.And(buffer_is(s, selfv, arr, d1, r1), d1 <= r1, r1 <= NET_END), observe={"len": d1 - d0})
+            if inst == "faultfree":
+                eng.oblige(f"{self.qualname}.post.faultfree_line_through_first_LF_else_the_rest", s,
+                           z3.If(nl < NET_END, d1 == nl + 1, d1 == NET_END), observe={"len": d1 - d0, "first_LF_at": nl - d0})
         return canary
 
 
@@ -408,4 +433,38 @@ def refinement_lemmas():
         eng.oblige(f"{Q}.ends_at_first_LF_or_has_none", s, z3.Or(d0 + n <= nl, z3.And(nl < NET_END, d0 + n == nl + 1)))
         eng.oblige(f"{Q}.cursor_advances_by_result", s, d1 == d0 + n)
         eng.oblige(f"{Q}.invariant_again", s, z3.And(buffer_is(s, w, arr, d1, r1), d1 <= r1, r1 <= NET_END))
+    # ---- the same two over a FAULT-FREE peer (sends net[0:net_end], then closes; no timeouts): C02's completeness is verified for
+    # the reader over the fault-free stream contract (read(n) = min(n, rest) bytes, readline = through the first LF else the rest).
+    # The wrapper agrees with it exactly for readline, and for read whenever at least num bytes remain or none do; where 0 < rest <
+    # num it hands out b"" instead of the partial tail - both make the reader stop (EOFError / stream error caught as end of data),
+    # and in a concatenation of complete items (C02's input) the reader never asks for more than the current item holds.
+    st = State()
+    sock = new_socket(st, faultfree=True)
+    w = new_wrapper(st, sock)
+    arr = st.obj(sock).fields["arr"]
+    d0 = int_term(st.ghost["dpos"])
+    num = z3.Int("num")
+    st.assume(num >= 0)
+    Q = "lemma.refines_faultfree.SocketWrapper.read"
+    rest = NET_END - d0
+    for s, v in REGISTRY[W + ".read"].apply(eng, st, w, [SInt(num)], {}, None):
+        n = bytes_len(as_sbytes(norm(v)))
+        eng.oblige(f"{Q}.min_of_requested_and_rest_when_enough_or_nothing_remains", s,
+                   z3.Implies(z3.Or(rest >= num, rest == 0), n == z3.If(num <= rest, num, rest)))
+        eng.oblige(f"{Q}.otherwise_empty_with_the_tail_kept", s,
+                   z3.Implies(z3.And(rest < num, rest > 0), z3.And(n == 0, buffer_is(s, w, arr, d0, NET_END))))
+        eng.oblige(f"{Q}.result_is_src_slice_at_pos", s, is_slice(v, arr, d0, d0 + n))
+    st = State()
+    sock = new_socket(st, faultfree=True)
+    w = new_wrapper(st, sock)
+    arr = st.obj(sock).fields["arr"]
+    d0 = int_term(st.ghost["dpos"])
+    nl = NEXTLF_NET(d0)
+    Q = "lemma.refines_faultfree.SocketWrapper.readline"
+    outs = REGISTRY[W + ".readline"].apply(eng, st, w, [], {}, None)
+    eng.cover(f"{Q}.has_outcomes", st, z3.BoolVal(len(outs) == 2))
+    for s, v in outs:
+        n = bytes_len(as_sbytes(norm(v)))
+        eng.oblige(f"{Q}.through_first_LF_else_the_rest", s, n == z3.If(nl < NET_END, nl + 1 - d0, NET_END - d0))
+        eng.oblige(f"{Q}.result_is_src_slice_at_pos", s, is_slice(v, arr, d0, d0 + n))
     return eng.obligations
